@@ -451,6 +451,17 @@ def run_cross(plan):
                     probes['cross_estimate_used'] = 1
                 else:
                     bound = float('inf')
+                if max(dx, dy) > bound and np.isfinite(bound):
+                    # second calibration: the same configuration a with a rounding-level perturbation of its own (Newton
+                    # tolerance 1e-9 instead of 1e-10).  If that alone moves the final state as much, the case switches on a
+                    # knife edge and the difference says nothing about the option.
+                    ka2 = dict(_opts_to_knobs(plan['a'], plan['tstep'], plan.get('tds_method', 'trapezoid')), **{'TDS.tol': 1e-9})
+                    c2 = run_config(plan, ka2)
+                    if c2.get('ret'):
+                        sens = max(rel(sa.dae.x[mask], c2['ss'].dae.x[mask]), rel(sa.dae.y, c2['ss'].dae.y))
+                        probes['cross_sensitivity_used'] = 1
+                        if sens > 1e-6:
+                            bound = max(bound, 3 * sens)
             if max(dx, dy) > bound:
                 v.append(V('cross_option', 'final states differ by %.3g (relative, bound %.3g) between configurations (%s)' %
                            (max(dx, dy), bound, desc), what='trajectory', diff=plan['what'], same_switching=same_switching))
